@@ -1,0 +1,7 @@
+//go:build !verif
+
+package dhcpv6
+
+import "net"
+
+func verifIntercept(*Server, *Message, *net.UDPAddr) bool { return false }
